@@ -156,12 +156,12 @@ cmp_contract('__eq__', 1, -1, 'equality')
 
 contract(EP + 'get_is_leaf', [('self', ET)], pure=True, returns=TBool,
          ensures=lambda S0, S, a, res: [('value', res.t == S0.fld('Expression', '_is_leaf', a['self'].t))])
-contract(CP + 'set_name', [('self', CT), ('name', TOpt(TStr))], returns=TNone,
+contract(CP + 'set_name', [('self', CT), ('name', TOpt(TStr))], returns=TNone, allocates=False,
          ensures=lambda S0, S, a, res: [('stored', z3.And(S.fld_none('Constraint', 'name', a['self'].t) == a['name'].none,
                                                          z3.Implies(z3.Not(a['name'].none), S.fld('Constraint', 'name', a['self'].t) == a['name'].t)))],
          modifies=lambda S, a: {'f:name': lambda r: r == a['self'].t, 'f:name?none': lambda r: r == a['self'].t})
 
-contract(EP + 'set_name', [('self', ET), ('name', TOpt(TStr))], returns=TNone,
+contract(EP + 'set_name', [('self', ET), ('name', TOpt(TStr))], returns=TNone, allocates=False,
          ensures=lambda S0, S, a, res: [('stored', z3.And(S.fld_none('Expression', 'name', a['self'].t) == a['name'].none,
                                                          z3.Implies(z3.Not(a['name'].none), S.fld('Expression', 'name', a['self'].t) == a['name'].t)))],
          modifies=lambda S, a: {'f:name': lambda r: r == a['self'].t, 'f:name?none': lambda r: r == a['self'].t})
